@@ -656,6 +656,8 @@ def mk_replace(base: Term, updates: Tuple[Tuple[str, Term], ...]) -> Term:
 
 def call_name(t: Term) -> str:
     """Dotted callee name of a call term: 'self.q.popleft' or '<receiver>.method' for non-symbolic receivers."""
+    if t[0] != "call":
+        return ""
     f = t[1]
     if isinstance(f, str):
         return f
